@@ -220,6 +220,13 @@ def drive_recv(case):
             pmd._create_decompressor = lambda: _InflateProxy(orig(), tape, True)
             if pmd._decompressor is not None:
                 pmd._decompressor = _InflateProxy(pmd._decompressor, tape, False)
+        if case.get("lclose") is not None:
+            code, reason = case["lclose"]
+            try:
+                p.close(code, reason)
+            except ValueError:
+                return [Tag("Escaped:ValueError"), h.ev, [bool(p.client_terminated), bool(p.server_terminated), bool(s.closed())],
+                        digest(bytes(s.sent)), p.close_code, p.close_reason]
         task = asyncio.ensure_future(p._receive_frame_loop())
         await _quiesce(loop)
         pos = 0
@@ -309,9 +316,34 @@ def drive_send(case):
     return obs
 
 
+NEG_KEYS = {"KServerNoCtx": "server_no_context_takeover", "KClientNoCtx": "client_no_context_takeover",
+            "KServerBits": "server_max_window_bits", "KClientBits": "client_max_window_bits", "KOther": "x_unknown_parameter"}
+
+
+def drive_neg(case):
+    """_create_compressors on both ends with the same agreed parameters."""
+    from tornado.websocket import WebSocketProtocol13, _WebSocketParams
+    agreed = {}
+    for k, v in case["agreed"]:
+        agreed[NEG_KEYS[k]] = None if v is None else (str(v) if isinstance(v, int) else v)
+    out = []
+    for side in ("client", "server"):
+        p = WebSocketProtocol13(_Handler(), side == "client", _WebSocketParams(compression_options={}))
+        try:
+            p._create_compressors(side, dict(agreed), {})
+        except ValueError:
+            out.append(Tag("ValueError"))
+            continue
+        out.append([[p._compressor._compressor is not None, p._compressor._max_wbits],
+                    [p._decompressor._decompressor is not None, p._decompressor._max_wbits]])
+    return out
+
+
 def run_impl(case):
     if case["kind"] == "send":
         return drive_send(case)
+    if case["kind"] == "neg":
+        return drive_neg(case)
     return drive_recv(case)
 
 
@@ -337,7 +369,29 @@ def gexpect(exp):
     return "(Some %s)" % ("[" + "; ".join(items) + "]" if items else "(@nil (bool * blob))")
 
 
+def coq_close_input(case):
+    tape = case.get("_tape") or []
+    items = []
+    for fresh, inp, mx, res in tape:
+        r = "None" if res is None else "(Some (%s, %s))" % (gblob(s2b(res[0])), G.gbool(res[1]))
+        items.append("(%s, %s, %s, %s)" % (G.gbool(fresh), gblob(s2b(inp)), G.gn(mx), r))
+    tape_s = "[" + "; ".join(items) + "]" if items else "(@nil (bool * blob * N * option (blob * bool)))"
+    key = "None" if case.get("key") is None else "(Some %s)" % G.gbytes(s2b(case["key"]))
+    code, reason = case["lclose"]
+    return "(CClose %s %s %s %s %s %s %s %s)" % (
+        gopt_bool(case["decomp"]), G.gn(case["max"]), key, G.gbool(case["eof"]),
+        "None" if code is None else "(Some %s)" % G.gn(code),
+        "None" if reason is None else "(Some %s)" % gblob(reason.encode("utf-8")),
+        gblob(s2b(case["wire"])), tape_s)
+
+
 def coq_input(case):
+    if case["kind"] == "recv" and case.get("lclose") is not None:
+        return coq_close_input(case)
+    if case["kind"] == "neg":
+        items = ["(%s, %s)" % (k, "PNone" if v is None else "(PInt %s)" % G.gn(v) if isinstance(v, int) else "PBad")
+                 for k, v in case["agreed"]]
+        return "(CNeg %s)" % ("[" + "; ".join(items) + "]" if items else "(@nil (pkey * pval))")
     if case["kind"] == "send":
         tape = case.get("_tape") or []
         ms = ["(%s, %s, %s)" % (G.gbool(b), gblob(s2b(d) if b else d), G.gbytes(s2b(k))) for b, d, k in case["msgs"]]
@@ -357,6 +411,13 @@ def delivered(obs):
 
 
 def py_check(case, obs):
+    if case["kind"] == "neg":
+        if not (isinstance(obs, list) and len(obs) == 2):
+            return False
+        c, s_ = obs
+        if isinstance(c, list) and isinstance(s_, list):
+            return c[0] == s_[1] and s_[0] == c[1]
+        return True
     if case["kind"] == "send":
         return isinstance(obs, list) and len(obs) == len(case["msgs"])
     exp = case.get("expect")
@@ -400,7 +461,11 @@ def rand_key(rng):
 def rand_msg(rng, n=None):
     """(text?, data) with data a str (text) or latin-1 str of the bytes (binary)."""
     if n is None:
-        n = rng.choice([0, 1, 2, 3, 5, 17, 60, 124, 125, 126, 127, 128, 199, 200, 201, 260])
+        # mostly short (case literals are parsed by coqc); the length boundaries have dedicated cases too
+        if rng.random() < 0.7:
+            n = rng.choice([0, 1, 2, 3, 5, 17])
+        else:
+            n = rng.choice([60, 124, 125, 126, 127, 128, 199, 200, 201, 260])
     if rng.random() < 0.5:
         t = rand_text(rng, max(0, n // 3) if n > 3 else n)
         return [True, t]
@@ -618,7 +683,7 @@ def boundary_cases(rng, tier):
         if tier == "thorough":
             configs = [(c, mk) for c in COMP_CONFIGS for mk in (True, False)]
             if n > 60000:
-                configs = configs[::3]      # 6 of the 18 configurations for the 64 KiB lengths
+                configs = configs[::5]      # 4 of the 18 configurations for the 64 KiB lengths
         elif n > 60000:
             configs = [(None, n != 65536), ((True, None), n == 65536)]      # quick: two 64 KiB configurations per length
         for comp, mask in configs:
@@ -660,8 +725,64 @@ def exhaustive_fragmentations(rng, msg_len, max_frags, label):
     return out
 
 
+def neg_cases(rng, tier):
+    """agreed-parameter dicts: every subset of the 4 known keys (+ an unknown one) with values from a small pool
+    (thorough: the full product)"""
+    import itertools as it
+    out = []
+    bits_vals = [None, 7, 8, 9, 10, 15, 16, 0, 100, "abc"]
+    flag_vals = [None, "true"]
+    keys = ["KServerNoCtx", "KClientNoCtx", "KServerBits", "KClientBits"]
+    combos = []
+    for present in it.product((False, True), repeat=4):
+        pools = []
+        for k, pr in zip(keys, present):
+            if not pr:
+                pools.append([("absent",)])
+            else:
+                pools.append([(k, v) for v in (flag_vals if k.endswith("NoCtx") else bits_vals)])
+        for pick in it.product(*pools):
+            combos.append([list(x) for x in pick if x != ("absent",)])
+    if tier == "quick":
+        combos = rng.sample(combos, 150)
+    for c in combos:
+        c = list(c)
+        rng.shuffle(c)
+        out.append({"kind": "neg", "agreed": c, "label": "neg"})
+    for _ in range(6):
+        c = [list(x) for x in rng.choice(combos)] + [["KOther", rng.choice([None, 3, "abc"])]]
+        rng.shuffle(c)
+        out.append({"kind": "neg", "agreed": c, "label": "neg"})
+    return out
+
+
+def close_cases(rng, tier):
+    """close(code, reason) called locally, then the peer's answer (nothing / data then the echo / the echo / noise)"""
+    out = []
+    codes = [None, 1000, 1001, 3000, 4999, 0, 65535]
+    reasons = [None, "", "bye", "é€😀", "x" * 123, "x" * 124, "é" * 62]
+    combos = [(c, r) for c in codes for r in reasons]
+    if tier == "quick":
+        combos = rng.sample(combos, 20)
+    for code, reason in combos:
+        comp = rng.choice([None, (True, None), (False, None)])
+        peer = Peer(rng, comp, True)
+        echo = frame(True, 8, b"" if code is None and reason is None else struct.pack("!H", code if code is not None else 1000), mask=peer.key())
+        m = rand_msg(rng, 5)
+        answers = [b"", echo, peer.message(m, [2], lambda i: 1 if i else 0) + echo,
+                   frame(True, 8, struct.pack("!H", 1002) + b"\xffbad", mask=peer.key()), echo + peer.message(m, [], lambda i: 0)]
+        for wire in (answers if tier != "quick" else rng.sample(answers, 2)):
+            c = recv_case(None if comp is None else comp[0], wire, key=rand_key(rng) if rng.random() < 0.4 else None,
+                          eof=rng.random() < 0.3, seg=rand_seg(rng, len(wire)), wbits=None if comp is None else comp[1], label="close")
+            c["lclose"] = [code, reason]
+            out.append(c)
+    return out
+
+
 def gen_cases(rng, tier):
     out = []
+    out += neg_cases(rng, tier)
+    out += close_cases(rng, tier)
     out += boundary_cases(rng, tier)
     n_send = 40 if tier == "quick" else 300
     for _ in range(n_send):
@@ -674,7 +795,7 @@ def gen_cases(rng, tier):
     n_frag = 250 if tier == "quick" else 1500
     for i in range(n_frag):
         out.append(conforming_case(rng, rng.choice(COMP_CONFIGS), every_gap=(i % 3 == 0)))
-    for big in ([65536] if tier == "quick" else [65535, 65536, 70000, 131072]):
+    for big in ([65536] if tier == "quick" else [65535, 65536, 70000]):
         for comp in (None, (True, None)):
             out.append(conforming_case(rng, comp, n_msgs=2, big=big, every_gap=True, label="big-frag"))
     out += malformed_cases(rng, 250 if tier == "quick" else 1500)
@@ -685,6 +806,8 @@ def gen_cases(rng, tier):
 
 
 def _heavy(c):
+    if c["kind"] == "neg":
+        return False
     if c["kind"] == "recv":
         return len(c["wire"]) > 20000
     return any(len(m[1]) > 20000 for m in c["msgs"])
@@ -707,6 +830,8 @@ def spread_heavy(cases):
 
 
 def nontrivial(case, obs):
+    if case["kind"] == "neg":
+        return ("n", tuple(map(tuple, case["agreed"])))
     if case["kind"] == "send":
         return ("s", case["mask"], case["comp"], case.get("wbits"), tuple(map(tuple, case["msgs"])))
     if not case["wire"]:
@@ -723,6 +848,8 @@ def classify(case, obs):
         yield "expect=" + ("conforming" if case.get("expect") is not None else "none")
         n = len(case["wire"])
         yield "wire=" + ("0" if n == 0 else "<126" if n < 126 else "<65536" if n < 65536 else ">=65536")
+    elif case["kind"] == "neg":
+        yield "neg=" + ("/".join("ok" if isinstance(x, list) else "ValueError" for x in obs) if isinstance(obs, list) else "?")
     else:
         yield "deflate=" + ("off" if case["comp"] is None else "takeover" if case["comp"] else "no_takeover")
         yield "mask=%s" % case["mask"]
@@ -735,6 +862,10 @@ def signature(case, obs):
 
 
 def shrink(case):
+    if case["kind"] == "neg":
+        for i in range(len(case["agreed"])):
+            yield dict(case, agreed=case["agreed"][:i] + case["agreed"][i + 1:])
+        return
     if case["kind"] == "recv":
         if case.get("seg"):
             yield dict(case, seg=[])
